@@ -27,7 +27,7 @@ MAGS = [2.0, 0.5, 37.0]
 
 
 def plan(tier):
-    return {"budget_s": 40 if tier == "quick" else 300, "profiles": ["R"], "min_evaluations": 20000}
+    return {"budget_s": 40 if tier == "quick" else 300, "profiles": ["R"], "min_evaluations": 2000}
 
 
 def cls(u):
